@@ -503,7 +503,8 @@ for (w, u, e) in _cfgs:
         # the same obligations are part of the conformance properties' THOROUGH tier (a fault that exists only on a
         # non-default compile-time path breaks C01/C02/C03 in that build); every-change tier: C12 only
         nj.props = ["C12"] + (["C01", "C03"] if bid.startswith(("s128.", "s64.")) else ["C02", "C03"] if bid.startswith("m.") else ["C17"] if bid == "i.cleanse" else ["C05"])
-        nj.quick_only_for = {"C12"}
+        # (round 6: no longer restricted to C12's every-change tier - the three quick configurations are part of the every-change tier of
+        #  C01/C02/C03/C05 as well, so that a fault on a path the default build does not compile is seen by the property it breaks)
         nj.defs = list(b.defs) + dfs
         nj.tier = "quick" if (w, u, e) in _quick_cfgs and not bid.endswith("set_tk1") else "thorough"
         nj.note = (b.note + "; " if b.note else "") + "configuration 64BIT=%d UNALIGNED=%d LITTLE_ENDIAN=%d" % (w, u, e)
